@@ -384,13 +384,14 @@ def run(tier):
         seeds.append(p)
     lines = ["text\n", "    code\n", "* item\n", "1. item\n", "> quote\n", "```\ncode\n```\n", "a | b\n--|--\nc | d\n", "term\n: def\n", "<div>\nx\n</div>\n",
              "# Head\n\n> : y\n\n", "term\n: def\n\n> : z\n\nHead\n====\n\n", "[>AB]: expansion\n\nAB x AB y\n", "[?term]: gloss\n\nsome term here\n", "a {++b++} {--c--} {~~d~>e~~} f\n",
+             "# H\n\n[x][r]\n\n[r]: #foo\n\n", "# Head\n\nsee [Head][] and note[^n]\n\n[^n]: note\n\n",
              "***\n", "head\n===\n", "# head\n", "[a]: http://x\n", "[^a]: note\n\ntext[^a]\n", "*a* **b** `c` [l](u) ![i](p)\n", "x <a@b.cc> \"q\" -- ...\n"]
     always = []
     for i, l in enumerate(lines):
         p = os.path.join(seeds_dir, 'line%02d.text' % i)
         open(p, 'w').write(l)
         seeds.append(p)
-        if '[>AB]' in l or '{++' in l or '[?term]' in l or '> : ' in l:
+        if '[>AB]' in l or '{++' in l or '[?term]' in l or '> : ' in l or '[r]: #foo' in l or '[Head][]' in l:
             always.append(p)
     pats = []
     if quick:
@@ -403,6 +404,8 @@ def run(tier):
     ctasks = [(p, f, e, max_bytes, (60 if quick else 900) * scale) for p in seeds + pats for f in fmts for e in (EXT_MMD, EXT_COMPAT)]
     # CriticMarkup accept / reject run a separate pass over the source before parsing
     ctasks += [(p, 'html', EXT_MMD | e, max_bytes, (60 if quick else 900) * scale) for p in always + [x for x in seeds if 'Critic' in os.path.basename(x)] for e in (0x400, 0x800)]
+    # declared-random anchors (--random / --unique) look headers and notes up while printing every link
+    ctasks += [(p, 'html', EXT_MMD | e, max_bytes, (60 if quick else 900) * scale) for p in always for e in (wk.EXT['RANDOM_LABELS'], wk.EXT['RANDOM_FOOT'], wk.EXT['RANDOM_LABELS'] | wk.EXT['RANDOM_FOOT'])]
     with cf.ProcessPoolExecutor(common.NCPU) as ex:
         for r in ex.map(cost_task, ctasks, chunksize=1):
             ev.evaluations += len(r['rungs'])
